@@ -137,7 +137,7 @@ func c09Run(e *core.Env) {
 	if e.Take() {
 		// print sorts each day; whether that is properly ordered with the stages that read
 		// the day is decided by the race detector on free-running executions
-		raceTier(e, core.Pick(e, 6, 30), "C09", "pipe-print")
+		raceTier(e, core.Pick(e, 4, 20), "C09", "pipe-")
 	}
 }
 
